@@ -89,6 +89,17 @@ def wild_cases():
     s10 = copy.deepcopy(s)
     s10['tables'][0]['name'] = 'a\\tb'
     out.append(('NameBackslash', 'Table "a\\tb" {\n id int\n x int\n}\nTable b {\n id int\n x int\n}\n', s10))
+    # a quoted column name containing a comma (or framed by parentheses / blanks) used in a reference
+    s11 = copy.deepcopy(s)
+    s11['tables'][0]['columns'][1]['name'] = 'x,y'
+    s11['refs'] = [{'type': '>', 't1': 0, 'col1': [1], 't2': 1, 'col2': [0], 'name': None, 'comment': None,
+                    'on_update': None, 'on_delete': None, 'inline': False}]
+    out.append(('RefColumnSplit', 'Table a {\n id int\n "x,y" int\n}\nTable b {\n id int\n x int\n}\nRef: a."x,y" > b.id\n', s11))
+    s12 = copy.deepcopy(s)
+    s12['tables'][0]['columns'] = [col('id'), col('x'), col('(x)')]
+    s12['refs'] = [{'type': '>', 't1': 0, 'col1': [2], 't2': 1, 'col2': [0], 'name': None, 'comment': None,
+                    'on_update': None, 'on_delete': None, 'inline': False}]
+    out.append(('RefColumnSplit', 'Table a {\n id int\n x int\n "(x)" int\n}\nTable b {\n id int\n x int\n}\nRef: a."(x)" > b.id\n', s12))
     return [(r, t, e) for r, t, e in out if e is not None]
 
 
